@@ -73,11 +73,11 @@ Trace(s, x, y) ==
     /\ R(s) >= 3 /\ CanTrace(T(s), x, y)
     /\ Store(OpTrace(T(s), x, y), [op |-> "trace", a |-> s, x |-> x, y |-> y])
 AddScaled(a, z, b) ==
-    /\ CanAdd(T(a), T(b))
-    /\ Store(OpAddScaled(T(a), z, T(b)), [op |-> "add_scaled", a |-> a, b |-> b, z |-> z])
+    /\ CanAddL(T(a), T(b))
+    /\ Store(OpAddScaledL(T(a), z, T(b)), [op |-> "add_scaled", a |-> a, b |-> b, z |-> z])
 IAddScaled(a, z, b) ==
-    /\ CanAdd(T(a), T(b))
-    /\ Update(a, OpAddScaled(T(a), z, T(b)), [op |-> "iadd_prefactor_other", a |-> a, b |-> b, z |-> z])
+    /\ CanAddL(T(a), T(b))
+    /\ Update(a, OpAddScaledL(T(a), z, T(b)), [op |-> "iadd_prefactor_other", a |-> a, b |-> b, z |-> z])
 AddByLabels(a, z, b, inpl) ==
     /\ CanAddByLabels(T(a), T(b))
     /\ IF inpl THEN Update(a, OpAddByLabels(T(a), z, T(b)), [op |-> "iadd_by_labels", a |-> a, b |-> b, z |-> z])
@@ -133,6 +133,10 @@ Extend(s, x, extra) == Store(OpExtend(T(s), x, extra), [op |-> "extend", a |-> s
 AddLeg(s, b, y, i, x) ==
     LET lab == IF \E a \in 1..R(s) : T(s).labels[a] = <<"n">> THEN NoneLabel ELSE <<"n">> IN
     Store(OpAddLeg(T(s), T(b).legs[y], i, x, lab), [op |-> "add_leg", a |-> s, b |-> b, y |-> y, i |-> i, x |-> x, label |-> lab])
+\* copy(deep=True) / copy(deep=False): the shallow copy shares the tensor entries (and internally the block index) with
+\* the original; in-place operations that only re-index (iproject, itranspose, iswapaxes) on one of them must leave the
+\* other intact ("Array views may share _qdata views, so make a copy of _qdata before manipulating")
+CopyOp(s, o) == Store(T(s), [op |-> o, a |-> s])
 Norm2(s) == Observe([op |-> "norm2", a |-> s, value |-> <<OpNorm2(T(s)), 0>>])
 
 \* --- two phases: Choose* picks an operation and its arguments (cheap: only the preconditions are
@@ -147,10 +151,10 @@ Choose(p) == /\ pending' = p
 U == used
 \* slots whose tensor entries may be shared with another slot (results of operations documented to return
 \* shallow copies).  In-place methods are not applied to them: what happens then is documented as unspecified.
-ShallowOps == {"gauge_total_charge", "add_trivial_leg", "sort_legcharge"}
+ShallowOps == {"gauge_total_charge", "add_trivial_leg", "sort_legcharge", "shallow_copy"}
 Free(s) == \A p \in shared : s \notin p
 ChConj == CanChoose("Conj") /\ \E s \in U, o \in {"conj", "iconj", "complex_conj", "conj_nocc"} : (o = "iconj" => Free(s)) /\ Choose([op |-> o, a |-> s])
-ChTranspose == CanChoose("Transpose") /\ \E s \in U : \E p \in Perms(R(s)), o \in {"transpose", "itranspose"} : (o = "itranspose" => Free(s)) /\ Choose([op |-> o, a |-> s, perm |-> p])
+ChTranspose == CanChoose("Transpose") /\ \E s \in U : \E p \in Perms(R(s)), o \in {"transpose", "itranspose"} : Choose([op |-> o, a |-> s, perm |-> p])
 ChTensordot == CanChoose("Tensordot") /\ \E a, b \in U : \E k \in 0..2 : k <= R(a) /\ k <= R(b) /\
                   \E axa \in InjSeqs(R(a), k), axb \in InjSeqs(R(b), k) :
                       /\ (k = 2 => axa[1] < axa[2])
@@ -160,7 +164,7 @@ ChTensordot == CanChoose("Tensordot") /\ \E a, b \in U : \E k \in 0..2 : k <= R(
 ChInner == CanChoose("Inner") /\ \E a, b \in U, dc \in BOOLEAN : CanInner(T(a), T(b), dc) /\ Choose([op |-> "inner", a |-> a, b |-> b, do_conj |-> dc])
 ChTrace == CanChoose("Trace") /\ \E s \in U : \E x, y \in 1..R(s) : R(s) >= 3 /\ CanTrace(T(s), x, y) /\ Choose([op |-> "trace", a |-> s, x |-> x, y |-> y])
 ChAdd == CanChoose("Add") /\ \E a, b \in U, z \in Scalars, o \in {"add_scaled", "iadd_prefactor_other"} :
-            CanAdd(T(a), T(b)) /\ (o = "iadd_prefactor_other" => Free(a)) /\ Choose([op |-> o, a |-> a, b |-> b, z |-> z])
+            CanAddL(T(a), T(b)) /\ (o = "iadd_prefactor_other" => Free(a)) /\ Choose([op |-> o, a |-> a, b |-> b, z |-> z])
 ChAddByLabels == CanChoose("AddByLabels") /\ \E a, b \in U, z \in {<<1, 0>>, <<-1, 0>>, <<0, 1>>}, inpl \in BOOLEAN :
                     CanAddByLabels(T(a), T(b)) /\ (inpl => Free(a)) /\ Choose([op |-> "add_by_labels", a |-> a, b |-> b, z |-> z, inpl |-> inpl])
 ChScale == CanChoose("Scale") /\ \E s \in U, z \in (Scalars \ {<<1, 0>>}) \cup {<<0, 0>>}, o \in {"scale", "iscale_prefactor"} : (o = "iscale_prefactor" => Free(s)) /\ Choose([op |-> o, a |-> s, z |-> z])
@@ -173,7 +177,7 @@ ChTakeSlice == CanChoose("TakeSlice") /\ \E s \in U : \E x \in 1..R(s) : R(s) >=
 Masks(n) == IF n <= 4 THEN (SUBSET (0..(n - 1))) \ {0..(n - 1)}
             ELSE {(0..(n - 1)) \ {i} : i \in 0..(n - 1)} \cup {{i \in 0..(n - 1) : i % 2 = 0}, {i \in 0..(n - 1) : i % 3 = 1}, {}}
 ChProject == CanChoose("Project") /\ \E s \in U : \E x \in 1..R(s) : \E K \in Masks(IndLen(T(s).legs[x])) :
-                Free(s) /\ Choose([op |-> "iproject", a |-> s, keep |-> SortedSeqOf(K), x |-> x])
+                Choose([op |-> "iproject", a |-> s, keep |-> SortedSeqOf(K), x |-> x])
 ChPermute == CanChoose("Permute") /\ \E s \in U : \E x \in 1..R(s) : LET n == IndLen(T(s).legs[x]) IN
                 n >= 2 /\ \E p \in {[i \in 1..n |-> n - i], [i \in 1..n |-> i % n], [i \in 1..n |-> IF i = 1 THEN 1 ELSE IF i = 2 THEN 0 ELSE i - 1]} :
                     Choose([op |-> "permute", a |-> s, perm |-> p, x |-> x])
@@ -186,12 +190,13 @@ ChGauge == CanChoose("Gauge") /\ \E s \in U : \E x \in 1..R(s), flip \in BOOLEAN
               Choose([op |-> "gauge_total_charge", a |-> s, x |-> x, newq |-> nq, flip |-> flip])
 ChSetEntry == CanChoose("SetEntry") /\ \E s \in U : \E idx \in Indices(T(s).val.shape) : \E z \in {<<7, 0>>, <<0, 0>>, <<3, -2>>} :
                  Free(s) /\ CanSetEntry(T(s), idx) /\ Choose([op |-> "setitem", a |-> s, idx |-> idx, z |-> z])
+ChCopy == CanChoose("Copy") /\ \E s \in U, o \in {"copy", "shallow_copy"} : Choose([op |-> o, a |-> s])
 ChNorm == CanChoose("Norm") /\ \E s \in U : Choose([op |-> "norm2", a |-> s])
 ChCombine2 == CanChoose("Combine2") /\ \E s \in U : R(s) >= 3 /\ \E g \in InjSeqs(R(s), 3), f1, f2 \in BOOLEAN :
                  \/ Choose([op |-> "combine_legs2", a |-> s, g1 |-> <<g[1], g[2]>>, g2 |-> <<g[3]>>, f1 |-> f1, f2 |-> f2])
                  \/ Choose([op |-> "combine_legs2", a |-> s, g1 |-> <<g[1]>>, g2 |-> <<g[2], g[3]>>, f1 |-> f1, f2 |-> f2])
 \* index specs per axis: everything, one int, or one of a few selections (ascending = mask/slice, reversed slice, unsorted)
-AxisSpecs(n) == {[k |-> "all"]} \cup {[k |-> "int", i |-> i] : i \in {0, n - 1}}
+AxisSpecs(n) == {[k |-> "all"]} \cup {[k |-> "int", i |-> i] : i \in {0, n - 1} \cap (0..(n - 1))}   \* none on a leg of length 0
                 \cup (IF n >= 2 THEN {[k |-> "sel", sel |-> [j \in 1..(n - 1) |-> j]],                   \* 1:
                                        [k |-> "sel", sel |-> [j \in 1..(n - 1) |-> n - 1 - j]],           \* -2::-1
                                        [k |-> "sel", sel |-> [j \in 1..((n + 1) \div 2) |-> 2 * (j - 1)]], \* ::2
@@ -208,15 +213,15 @@ ChScaleItems == CanChoose("ScaleItems") /\ \E s \in U : R(s) <= 3 /\ Free(s) /\ 
                    Choose([op |-> "setitem_scaled", a |-> s, spec |-> sp, z |-> z])
 ChSetItemsFrom == CanChoose("SetItemsFrom") /\ \E s, b \in U : s # b /\ R(s) <= 3 /\ Free(s) /\ CanAdd(T(s), T(b)) /\
                      \E sp \in IndexSpecs(T(s)) : Choose([op |-> "setitem_from", a |-> s, b |-> b, spec |-> sp])
-ChSwapAxes == CanChoose("SwapAxes") /\ \E s \in U : Free(s) /\ \E x, y \in 1..R(s) : x < y /\ Choose([op |-> "iswapaxes", a |-> s, x |-> x, y |-> y])
-ChTouch == CanChoose("Touch") /\ \E s \in U, o \in {"isort_qdata", "ipurge_zeros"} : Free(s) /\ Choose([op |-> o, a |-> s])
+ChSwapAxes == CanChoose("SwapAxes") /\ \E s \in U : \E x, y \in 1..R(s) : x < y /\ Choose([op |-> "iswapaxes", a |-> s, x |-> x, y |-> y])
+ChTouch == CanChoose("Touch") /\ \E s \in U, o \in {"isort_qdata", "ipurge_zeros"} : Choose([op |-> o, a |-> s])
 ChExtend == CanChoose("Extend") /\ \E s, b \in U : \E x \in 1..R(s), y \in 1..R(b) :
                /\ T(b).legs[y].qconj = T(s).legs[x].qconj /\ ~IsPipe(T(b).legs[y]) /\ ~IsPipe(T(s).legs[x])
                /\ Choose([op |-> "extend", a |-> s, x |-> x, extra |-> T(b).legs[y]])
 ChAddLeg == CanChoose("AddLeg") /\ \E s, b \in U : R(s) < MaxRank /\ \E y \in 1..R(b), x \in 1..R(s) : \E i \in 0..(IndLen(T(b).legs[y]) - 1) :
                ~IsPipe(T(b).legs[y]) /\ Choose([op |-> "add_leg", a |-> s, b |-> b, y |-> y, i |-> i, x |-> x])
 
-Classes == {"Conj", "Transpose", "Tensordot", "Inner", "Trace", "Add", "AddByLabels", "Scale", "Combine", "Split", "TakeSlice", "Project", "Permute", "SortLeg", "ScaleAxis", "Concat", "TrivialLeg", "Squeeze", "Gauge", "SetEntry", "Norm", "Combine2", "GetItem", "ScaleItems", "SetItemsFrom", "SwapAxes", "Touch", "Extend", "AddLeg"}
+Classes == {"Conj", "Transpose", "Tensordot", "Inner", "Trace", "Add", "AddByLabels", "Scale", "Combine", "Split", "TakeSlice", "Project", "Permute", "SortLeg", "ScaleAxis", "Concat", "TrivialLeg", "Squeeze", "Gauge", "SetEntry", "Norm", "Combine2", "GetItem", "ScaleItems", "SetItemsFrom", "SwapAxes", "Touch", "Extend", "AddLeg", "Copy"}
 PickClass == /\ cls = "none" /\ pending = Nil /\ nops < MaxOps
              /\ \E c \in Classes : cls' = c
              /\ UNCHANGED <<pool, used, shared, pending, last, nops, hist>>
@@ -262,6 +267,7 @@ Perform ==
       [] P.op \in {"isort_qdata", "ipurge_zeros"} -> Touch(P.a, P.op)
       [] P.op = "extend" -> Extend(P.a, P.x, P.extra)
       [] P.op = "add_leg" -> AddLeg(P.a, P.b, P.y, P.i, P.x)
+      [] P.op \in {"copy", "shallow_copy"} -> CopyOp(P.a, P.op)
 Exec == /\ pending # Nil
         /\ Perform
         /\ pending' = Nil
@@ -279,7 +285,7 @@ Exec == /\ pending # Nil
 Next == \/ ChConj \/ ChTranspose \/ ChTensordot \/ ChInner \/ ChTrace \/ ChAdd \/ ChAddByLabels \/ ChScale \/ ChCombine \/ ChSplit
         \/ ChTakeSlice \/ ChProject \/ ChPermute \/ ChSortLeg \/ ChScaleAxis \/ ChConcat \/ ChTrivialLeg \/ ChSqueeze
         \/ ChGauge \/ ChSetEntry \/ ChNorm \/ ChCombine2 \/ ChGetItem \/ ChScaleItems \/ ChSetItemsFrom \/ ChSwapAxes \/ ChTouch
-        \/ ChExtend \/ ChAddLeg \/ PickClass \/ Abandon \/ Exec
+        \/ ChExtend \/ ChAddLeg \/ ChCopy \/ PickClass \/ Abandon \/ Exec
 Spec == Init /\ [][Next]_vars
 -----------------------------------------------------------------------------
 \* C02 (design level): every tensor in the pool obeys the charge rule and is well formed
